@@ -9,7 +9,9 @@ mod analyze;
 mod collect;
 mod emit;
 mod facts;
+mod lower;
 mod model;
+mod roles;
 
 use std::collections::{BTreeMap, BTreeSet};
 use std::path::PathBuf;
@@ -82,6 +84,7 @@ fn main() {
         col.collect_file(n, f);
     }
     let krate = col.krate;
+    analyze::set_count_accessors(krate.count_accessors.clone());
 
     // analyse bodies; iterate because by-name method resolution may follow any function that
     // (transitively) performs an atomic load
